@@ -449,6 +449,10 @@ def _valid_flag_is(fa, e, n, value, IN=None):
         v = e.args[1]
     if v is None:
         return False
+    if isinstance(v, ast.UnaryOp) and isinstance(v.op, ast.Not):
+        # `valid_result=not failed`: the flag's values on these paths, negated
+        leaves = Assume(fa, lambda x: None).cases(v.operand, n, IN if IN is not None else fa.df.IN)
+        return bool(leaves) and all(isinstance(x, ast.Constant) and isinstance(x.value, bool) and x.value is (not value) for (x, _) in leaves)
     leaves = Assume(fa, lambda x: None).cases(v, n, IN if IN is not None else fa.df.IN)
     return bool(leaves) and all(isinstance(x, ast.Constant) and x.value is value for (x, _) in leaves)
 
@@ -1191,8 +1195,14 @@ def _guard_deps(ck, fa, expr, at, depth=2, _seen=None):
                 todo += [(x.id, d.node) for x in ast.walk(d.value) if isinstance(x, ast.Name) and isinstance(x.ctx, ast.Load)]
         if len(ds) < 2:
             continue
+        # (a test that decides whether ALL of the places are reached -- an early return in front of them -- does not choose
+        # between them: which value the local holds at the guard does not depend on it)
+        per_def = {d.node: {t.id for t in _branch_tests_of(fa, [d.node])} for d in ds}
+        common = set.intersection(*per_def.values()) if per_def else set()
         for d in ds:
             for t in _branch_tests_of(fa, [d.node]):
+                if t.id in common and t.id in {x.id for x in _branch_tests_of(fa, [n])}:
+                    continue
                 key = ("ctl", t.id)
                 if key in seen:
                     continue
